@@ -461,6 +461,10 @@ def run(repo: Repo, rep, tier: str):
     # set the clock to the end of the fill minute before they execute an order - the fast matcher per fill, the normal one per minute
     from props.c12 import check_fast_time
     from props import sessions as S
+    # the wallet side of "net PnL of the closed trades == change of the wallet": every fill - a flip included - charges the fee on what
+    # it fills (shared with C03-R1: the reference margin account)
+    from props.c03 import check_fills
+    rep.guarded(check_fills, repo, rep, "C06-R9")
     rep.guarded(check_fast_time, repo, rep, "C06-R7")
     rep.rule("C06-R7n", "mini sessions (props/sessions.py): the normal simulator has advanced the clock to the end of a minute before it stores and "
                         "matches it, so every fill - and the trade times taken from it - carries the end of its own minute")
